@@ -1,5 +1,6 @@
 import Ptk.Proto
 import Ptk.Model.C17
+import Ptk.Model.C17Buf
 open Ptk Ptk.Py Ptk.Proto Ptk.C17
 
 /-! Line protocol of the C17 driver.
@@ -58,19 +59,103 @@ def startEv (s : St) : St :=
   let s1 := step s .start
   if s1.kp.done.isSome then step s1 .finish else s1
 
+/-! second layer (`Ptk.C17.Buf` with the concrete emacs registry): commands
+     Binit k | BW n k1..kn | BS | BR n | BT | BF      and     BE2E k <events…> (w/s/r/t/f) -/
+namespace B
+open Ptk.C17.Buf
+
+abbrev BSt := Buf.St Emacs.S
+def T := Emacs.tbl
+def flushCode : Nat := 0x110000 + 998
+
+def encQK : QK → String
+  | some k => encKey k
+  | none => toString flushCode
+
+def kindOf (tr : List Disp) : String :=
+  match tr.getLast? with
+  | some (.call ks) => if ks.getLast? == some Key.abort then "-2" else "-1"
+  | _ => "-1"
+
+def encResB (r : List Disp × Emacs.S) : String := s!"{kindOf r.1}:{encStr r.2.e.text}"
+
+def showB (s : BSt) : String :=
+  let d := if s.kp.done then (if s.kp.crashed then "X" else kindOf s.kp.trace) else "N"
+  let cur : String := if s.running then s!"{encStr s.kp.ed.e.text} {s.kp.ed.e.cur}" else "- -"
+  s!"run={encBool s.running} done={d} buf={cur} kb={encKeys s.kp.buffer} q={encList encQK s.kp.queue} ta={encList encQK s.typeahead} res={encList encResB s.results}"
+
+def startEvB (s : BSt) : BSt :=
+  if s.running then s else
+  let s1 := Buf.step T s .start
+  if s1.kp.done then Buf.step T s1 .finish else s1
+
+def initB : BSt := Buf.St.init ⟨⟨[], 0⟩, false⟩
+
+def goB (k : Nat) : Nat → BSt → List String → Option BSt
+  | 0, _, _ => none
+  | fuel + 1, st, ts =>
+    match ts with
+    | [] => some st
+    | "s" :: ts => goB k fuel (if st.results.length < k then startEvB st else st) ts
+    | "f" :: ts => goB k fuel (Buf.step T st .finish) ts
+    | "t" :: ts => goB k fuel (Buf.step T st .timeout) ts
+    | "r" :: n :: ts =>
+      match decNat n with
+      | some n => goB k fuel (Buf.step T st (.read n)) ts
+      | none => none
+    | "w" :: n :: ts =>
+      match decNat n with
+      | some n =>
+        match takeKeys n ts with
+        | some (ks, rest) => goB k fuel (Buf.step T st (.write ks)) rest
+        | none => none
+      | none => none
+    | _ => none
+
+end B
+
 /-- driver state: the model state and the number of prompts the harness will start -/
-abbrev DS := St × Nat
+abbrev DS := (St × Nat) × B.BSt
+
+def stepLineB (bs : B.BSt) (kmax : Nat) (toks : List String) : Option B.BSt :=
+  match toks with
+  | "BW" :: n :: rest =>
+    match decNat n with
+    | some n =>
+      match takeKeys n rest with
+      | some (ks, []) => some (Buf.step B.T bs (.write ks))
+      | _ => none
+    | none => none
+  | ["BS"] => some (if bs.results.length < kmax then B.startEvB bs else bs)
+  | ["BR", n] => (decNat n).map fun n => Buf.step B.T bs (.read n)
+  | ["BT"] => some (Buf.step B.T bs .timeout)
+  | ["BF"] => some (Buf.step B.T bs .finish)
+  | _ => none
 
 def stepLine (ds : DS) (toks : List String) : DS × String :=
-  let s := ds.1
-  let kmax := ds.2
-  let ret (s' : St) : DS × String := ((s', kmax), showSt s')
+  let s := ds.1.1
+  let kmax := ds.1.2
+  let ret (s' : St) : DS × String := (((s', kmax), ds.2), showSt s')
   let bad : DS × String := (ds, "bad-op")
   match toks with
   | ["init", k] =>
     match decNat k with
-    | some k => ((St.init, k), showSt St.init)
+    | some k => (((St.init, k), ds.2), showSt St.init)
     | none => bad
+  | ["Binit", k] =>
+    match decNat k with
+    | some k => (((s, k), B.initB), B.showB B.initB)
+    | none => bad
+  | "BE2E" :: k :: evs =>
+    match decNat k with
+    | none => bad
+    | some k =>
+      match B.goB k (evs.length + 1) B.initB evs with
+      | some st =>
+        let left := st.kp.buffer.map some ++ st.typeahead ++ Buf.dropCprQ st.kp.queue ++ (dropCpr st.pipe).map some
+        let left := left.filter (fun q => q.isSome)
+        (ds, s!"run={encBool st.running} res={encList B.encResB st.results} left={encList B.encQK left}")
+      | none => bad
   | "W" :: n :: rest =>
     match decNat n with
     | some n =>
@@ -113,6 +198,9 @@ def stepLine (ds : DS) (toks : List String) : DS × String :=
         let left := st.typeahead ++ dropCpr st.kp.queue ++ dropCpr st.pipe
         (ds, s!"run={encBool st.running} res={encList encRes st.results} left={encKeys left}")
       | none => bad
-  | _ => bad
+  | _ =>
+    match stepLineB ds.2 kmax toks with
+    | some bs => ((ds.1, bs), B.showB bs)
+    | none => bad
 
-def main : IO Unit := runS stepLine (St.init, 0)
+def main : IO Unit := runS stepLine ((St.init, 0), B.initB)
